@@ -67,7 +67,7 @@ Theorem C19_unregistered_is_default : forall st package c q msg,
 Proof. exact log_unregistered_is_default. Qed.
 Print Assumptions C19_unregistered_is_default.
 
-(* sc_log takes the mutex of the effective package (-1 or registered), once, around the deliveries *)
+(* sc_log takes the mutex of the effective package (-1 or registered: a mutex that exists), once, around the deliveries *)
 Theorem C19_log_locks : forall st package c q msg,
   locks (log_st st package c q msg) =
   (if passes st c q then [(1, 0, 0, eff_pkg st package, 0, 0, 0); (2, 0, 0, eff_pkg st package, 0, 0, 0)] else [])
@@ -75,24 +75,68 @@ Theorem C19_log_locks : forall st package c q msg,
 Proof. intros; split; [exact (log_locks st package c q msg)|exact (eff_pkg_legal st package)]. Qed.
 Print Assumptions C19_log_locks.
 
-(* sc_logf / sc_logv: same deliveries as sc_log, but the mutex of the package AS GIVEN is taken first *)
-Theorem C19_logv : forall st package c q msg,
-  logv_st st package c q msg = [(1, 0, 0, package, 0, 0, 0); (2, 0, 0, package, 0, 0, 0)] ++ log_st st package c q msg
-  /\ deliveries (logv_st st package c q msg) = deliveries (log_st st package c q msg).
-Proof. intros; split; [exact (logv_events st package c q msg)|exact (logv_deliveries st package c q msg)]. Qed.
+(* sc_logf / sc_logv, the GENERATED function for every value of every global and argument: the id is
+   mapped to the effective package first (the given id if registered or -1, else -1 - the package sc_log
+   uses), that package's mutex is locked and unlocked, then it is sc_log *)
+Theorem C19_logv_generated :
+  forall (isr pkt pkh : Z -> Z) (dthr dh stream stdout ident tfile tprio package category priority fmt : Z),
+  sc_logv isr pkt pkh dthr dh stream stdout ident tfile tprio package category priority fmt =
+  [(1, 0, 0, g_eff_pkg isr package, 0, 0, 0); (2, 0, 0, g_eff_pkg isr package, 0, 0, 0)]
+  ++ sc_log isr pkt pkh dthr dh stream stdout ident tfile tprio package category priority fmt.
+Proof. exact sc_logv_events. Qed.
+Print Assumptions C19_logv_generated.
+
+(* the same in a model state, for EVERY package id: exactly the effective package is locked and unlocked
+   (a mutex that exists), the handler invocations are those of sc_log; the call never ends the process;
+   for ids below -1 the "Invalid package id" message of sc_package_is_registered appears once, exactly
+   as in sc_log *)
+Theorem C19_logv : forall dbg st package c q msg,
+  logv_st st package c q msg =
+    [(1, 0, 0, eff_pkg st package, 0, 0, 0); (2, 0, 0, eff_pkg st package, 0, 0, 0)] ++ log_st st package c q msg
+  /\ lock_legal st (eff_pkg st package) = true
+  /\ deliveries (logv_st st package c q msg) = deliveries (log_st st package c q msg)
+  /\ step dbg st (OLogv package c q msg) =
+       Some (st, isreg_query dbg st package
+                 ++ [(1, 0, 0, eff_pkg st package, 0, 0, 0); (2, 0, 0, eff_pkg st package, 0, 0, 0)]
+                 ++ log_st st package c q msg)
+  /\ step dbg st (OLog package c q msg) = Some (st, isreg_query dbg st package ++ log_st st package c q msg)
+  /\ isreg_query dbg st package =
+       (if package <? -1 then logv_st st (s_pkgid st) c19_const_lc_normal c19_const_lp_error MSG_INVALID_ID else []).
+Proof.
+  intros; split; [exact (logv_events st package c q msg)|split; [exact (eff_pkg_legal st package)|
+  split; [exact (logv_deliveries st package c q msg)|split; [exact (proj1 (logv_step dbg st package c q msg))|
+  split; [exact (proj2 (logv_step dbg st package c q msg))|exact (isreg_query_once dbg st package)]]]]].
+Qed.
 Print Assumptions C19_logv.
 
-(* recorded finding: for an unregistered id sc_log delivers to the default package while sc_logv
-   first locks that id's mutex (destroyed / never initialised / out of bounds with SC_ENABLE_PTHREAD) *)
-Theorem C19_logv_unregistered_refuted :
-  exists st package c q msg,
-    is_reg st package = 0 /\ package <> -1
-    /\ In (1, 0, 0, package, 0, 0, 0) (logv_st st package c q msg)
-    /\ lock_legal st package = false
-    /\ step false st (OLogv package c q msg) = None
-    /\ deliveries (log_full false st package c q msg) = [(0, BUILTIN, STDOUT, -1, c, q, msg)].
-Proof. exact logv_unregistered_refuted. Qed.
-Print Assumptions C19_logv_unregistered_refuted.
+(* every lock event of sc_logv names the effective package, whose mutex exists *)
+Theorem C19_logv_locks : forall st package c q msg e,
+  In e (locks (logv_st st package c q msg)) ->
+  (e = (1, 0, 0, eff_pkg st package, 0, 0, 0) \/ e = (2, 0, 0, eff_pkg st package, 0, 0, 0))
+  /\ lock_legal st (eff_pkg st package) = true.
+Proof. exact logv_locks_legal. Qed.
+Print Assumptions C19_logv_locks.
+
+(* logging in any form never ends the process and leaves the state alone, whatever the package id *)
+Theorem C19_logging_total : forall dbg st o,
+  (match o with OLog _ _ _ _ | OLogv _ _ _ _ | OGenLog _ _ _ _ | OGenLogf _ _ _ _ => True | _ => False end) ->
+  exists evs, step dbg st o = Some (st, evs).
+Proof. exact step_log_total. Qed.
+Print Assumptions C19_logging_total.
+
+(* what repair 622fcc2 of libsc removed (former finding logv-unregistered-package): sc_logv as it was
+   (sc_logv_old: lock of the id AS GIVEN) takes, for every id that is neither -1 nor registered, a mutex
+   that does not exist, while the generated sc_logv never mentions that id; the handler invocations are
+   the same.  Reverting the repair makes the generated function equal to sc_logv_old, and C19_logv,
+   C19_logv_generated and C19_logv_locks stop checking. *)
+Theorem C19_logv_old_locks_unregistered : forall st package c q msg,
+  package <> -1 -> is_reg st package = 0 ->
+  In (1, 0, 0, package, 0, 0, 0) (logv_old_st st package c q msg)
+  /\ lock_legal st package = false
+  /\ ~ In (1, 0, 0, package, 0, 0, 0) (logv_st st package c q msg)
+  /\ deliveries (logv_old_st st package c q msg) = deliveries (logv_st st package c q msg).
+Proof. exact logv_old_locks_unregistered. Qed.
+Print Assumptions C19_logv_old_locks_unregistered.
 
 (* --- the compile-time macros in front: only priorities below SC_LP_THRESHOLD are dropped ------- *)
 Theorem C19_gen_log_macro : forall (dbg : bool) package c q s,
@@ -243,4 +287,21 @@ Qed.
 Example C19_ex_trace_independent :
   exists st evs, run false (init_state false) [OSetDefaults 0 1 9; OTrace 3 2; OLog (-1) 2 5 1] = Some (st, evs)
     /\ deliveries evs = [(0, 1, 3, -1, 2, 5, 1)].
+Proof. eexists; eexists; split; vm_compute; reflexivity. Qed.
+
+(* the hypotheses of C19_logv_old_locks_unregistered are satisfiable, and sc_logf with ids that are not
+   registered (unregistered again, never registered inside the table, beyond the table, negative) is
+   delivered to the default handler *)
+Example C19_ex_logv_old_differs :
+  exists st package c q msg,
+    package <> -1 /\ is_reg st package = 0 /\ logv_old_st st package c q msg <> logv_st st package c q msg.
+Proof. exact logv_old_example. Qed.
+
+Example C19_ex_logv_unregistered :
+  exists st evs,
+    run false (init_state false)
+        [OSetDefaults 2 1 3; ORegister 2 0; ORegister 3 0; OUnregister 1;
+         OLogv 1 2 5 7; OLogv 2 2 5 8; OLogv 3 2 5 9; OLogv 1000 2 5 10; OLogv (-7) 2 5 11; OLogv 0 2 5 12] = Some (st, evs)
+    /\ deliveries evs = [(0, 1, 2, -1, 2, 5, 7); (0, 1, 2, -1, 2, 5, 8); (0, 1, 2, -1, 2, 5, 9); (0, 1, 2, -1, 2, 5, 10);
+                         (0, 1, 2, -1, 2, 8, MSG_INVALID_ID); (0, 1, 2, -1, 2, 5, 11); (0, 2, 2, 0, 2, 5, 12)].
 Proof. eexists; eexists; split; vm_compute; reflexivity. Qed.
